@@ -1,7 +1,7 @@
 (* Proofs/Utf8Proofs.v — algebra of the White_Space trimming functions of Model/Utf8.v on
    arbitrary byte lists: idempotence, commutation, prefix/suffix shape. *)
 From Coq Require Import Arith Wf_nat.
-From TeraV Require Import Model.Utf8.
+From TeraV Require Import Model.Utf8Lex.
 Local Open Scope N_scope.
 
 Lemma bytes_eqb_refl : forall a, bytes_eqb a a = true.
